@@ -299,7 +299,7 @@ theorem removeLayer_spec (cfg : Config) (d : Defs) (name : Bytes) (files : Bool)
   have hren := fsRename_none (autoMounts cfg l) l.layerPath (l.layerPath ++ removedSuffix) hlp hsep
   unfold removeLayer getL
   simp only [hl]
-  mvcgen [testName, errorIfError, errorIfBusy, fail, fExists, getW, reorder, hrl, hrm, hren]
+  mvcgen [testName, errorIfError, errorIfBusy, fail, fExists, getW, reorder, holdsOnlyOwnFiles, hrl, hrm, hren]
   all_goals (simp at *)
   all_goals grind [NoneAt, RemovedOnly.refl]
 
